@@ -1,6 +1,7 @@
 package props
 
 import (
+	"bytes"
 	"context"
 	"encoding/base64"
 	"fmt"
@@ -563,9 +564,99 @@ func runC14(c *Ctx) {
 			r.Sample(*tc)
 		}
 	})
+	c14RefusedSend(c)
+}
+
+// c14RefusedSend: the handler stages header metadata and its first reply is then refused (it is
+// larger than the send limit), on a plain mux and on one with options. Whatever error response
+// the protocol produces, a custom key is either not carried at all or carries exactly the
+// values the handler set, in order, once; binary values byte-exact.
+func c14RefusedSend(c *Ctx) {
+	r := c.Run
+	t, err := newTSchema()
+	if err != nil {
+		panic(err)
+	}
+	bin := []byte{0x00, 0xff, 0x10, 0x80, 0x7f}
+	md := metadata.MD{"x-seed": {"first", "second"}, "x-seed-bin": {string(bin)}}
+	for _, withOpts := range []bool{false, true} {
+		opts := []larking.MuxOption{larking.MaxSendMessageSizeOption(64)}
+		if withOpts {
+			opts = append(opts, c15PassThroughOpts()...)
+		}
+		m, impl, err := t.newMux(opts...)
+		if err != nil {
+			panic(err)
+		}
+		big := t.newRsp("", bytes.Repeat([]byte("r"), 300), 0)
+		pb, _ := proto.Marshal(t.newReq("", []byte("q"), 0))
+		for _, shape := range []string{"unary", "ss"} {
+			for _, via := range []string{"SetHeader", "SendHeader"} {
+				for _, pn := range []string{"http-json", "http-proto", "grpc", "web"} {
+					sc := hScript{Replies: []proto.Message{big}}
+					if via == "SetHeader" {
+						sc.Header = md.Copy()
+					} else {
+						sc.SendHdr, sc.SendHdrNow = md.Copy(), true
+					}
+					impl.reset(sc)
+					method, route := "Unary", "/t/unary"
+					if shape == "ss" {
+						method, route = "SS", "/t/ss"
+					}
+					var res *callResult
+					switch pn {
+					case "http-json":
+						res = doHTTP(m, "POST", route, "", http.Header{"Content-Type": {"application/json"}}, reqBody{Data: []byte(`{"b":"cQ=="}`), CL: -2})
+					case "http-proto":
+						res = doHTTP(m, "POST", route, "", http.Header{"Content-Type": {"application/protobuf"}}, reqBody{Data: pb, CL: -2})
+					case "grpc":
+						res = doGRPC(m, "/vs.T/"+method, "application/grpc", nil, reqBody{Data: wire.GRPCFrame(0, pb)})
+					default:
+						res = doWeb(m, "/vs.T/"+method, "application/grpc-web+proto", nil, reqBody{Data: wire.GRPCFrame(0, pb)})
+					}
+					r.Eval(1)
+					key := fmt.Sprintf("refused-first-send proto=%s shape=%s via=%s opts=%v", pn, shape, via, withOpts)
+					r.Distinct(key)
+					cs := map[string]any{"family": "refused-send", "proto": pn, "shape": shape, "via": via, "opts": withOpts}
+					if res.Panicked {
+						r.Outcome("FAIL:panic")
+						r.Violation(report.Violation{Oracle: "panic", Key: "panic " + key, Case: cs, Note: res.Panic})
+						continue
+					}
+					bad := ""
+					if v := res.Header.Values("X-Seed"); len(v) != 0 && fmt.Sprint(v) != "[first second]" {
+						bad = fmt.Sprintf("X-Seed: %q, the handler set [first second]", v)
+					}
+					if v := res.Header.Values("X-Seed-Bin"); len(v) != 0 {
+						dec, derr := base64.RawStdEncoding.DecodeString(strings.TrimRight(v[0], "="))
+						if len(v) != 1 || derr != nil || !bytes.Equal(dec, bin) {
+							bad = fmt.Sprintf("X-Seed-Bin: %q, the handler set one value %x", v, bin)
+						}
+					}
+					if bad != "" {
+						r.Outcome("FAIL:outgoing-header-values-after-refused-send")
+						r.Violation(report.Violation{Oracle: "outgoing-header-values-after-refused-send", Key: "outgoing-header-values-after-refused-send " + key, Case: cs, Note: bad})
+					} else {
+						r.Outcome("refused-send-ok:" + pn)
+					}
+				}
+			}
+		}
+	}
 }
 
 func replayC14(c *Ctx, v report.Violation) {
+	if m, ok := v.Case.(map[string]any); ok && m["family"] == "refused-send" {
+		sub := *c
+		sub.Run = report.NewRun("C14", "quick", 0, "exploration")
+		c14RefusedSend(&sub)
+		fmt.Printf("replay: refused-send family re-run -> %d violations\n", sub.Run.NumViolations())
+		if sub.Run.NumViolations() > 0 {
+			c.Run.Violation(v)
+		}
+		return
+	}
 	var tc c14Case
 	if !remarshal(v.Case, &tc) {
 		fmt.Println("replay: cannot decode case")
